@@ -859,7 +859,10 @@ TRUSTED = [
     "and the model of literal_value: the tool calls CPython's own functions on values",
 ]
 ASSUMPTIONS = [
-    "builtin names are not rebound by the program being refactored (literal_value calls builtins.<name>)",
+    "T15_1..T15_6 are about a file that rebinds no builtin name (lv = lv_rb []); rebinding is covered by lv_rb / eval_rb "
+    "(T15_7a-d), where a call through a name the file binds is outside the claim (Gap)",
+    "literal_value depends on (expression, names the file rebinds) only, not on what the process evaluated before: "
+    "checked on the real code by the history family (both orders in one process vs a fresh process vs lv_rb), not a theorem",
     "float / set / dict valued constant expressions are outside every theorem (covered by no claim, counted as Gap)",
     "expressions that take unbounded time or memory to evaluate (2 ** 10 ** 10) are outside the model; see finding F15-5",
 ]
